@@ -19,7 +19,7 @@ fn base_replies(cfg: &Cfg) -> Vec<Reply> {
         Mech::ShortTerm(Some(true)) => vec![ok.with_mac(RMac::Sha)],
         Mech::ShortTerm(_) => vec![ok.with_mac(RMac::Mi), err.with_mac(RMac::Mi)],
         Mech::LongTerm => vec![
-            Reply::plain(RClass::Error(401)).with_chal(Chal { realm: true, nonce: NonceKind::Plain(1), pas: PasKind::Absent, realm_v: 0 }),
+            Reply::plain(RClass::Error(401)).with_chal(Chal { realm: true, nonce: NonceKind::Plain(1), pas: PasKind::Absent, realm_v: 0, order: 0 }),
             ok.with_mac(RMac::Mi),
         ],
     }
@@ -145,7 +145,7 @@ pub fn run(ctx: &RunCtx, rep: &mut Report) {
     let mut cfgs = vec![];
     for t in [Transport::Unreliable { rto_ms: 100, gran_ms: 1, rm: 2, rc: 2 }, Transport::Reliable { timeout_ms: 300 }] {
         for m in [Mech::None, Mech::ShortTerm(None), Mech::ShortTerm(Some(true)), Mech::LongTerm] {
-            cfgs.push(Cfg { transport: t, mech: m, fingerprint: true, max_tx: 10 });
+            cfgs.push(Cfg { transport: t, mech: m, fingerprint: true, max_tx: 10, cred: 0, method: 1 });
         }
     }
     let depth = if thorough { 8 } else { 6 };
